@@ -136,6 +136,17 @@ CLAIMED["C03"] = dict(
     technique=EMOD_TECH,
     design="DESIGN.md#c03",
 )
+CLAIMED["C06"] = dict(
+    engine="E-modify",
+    text="Lean theorems for every IR: the side cache functions_by_block mirrors functionBlocks — the mirror relation is "
+    "an invariant of add_function_block_aux (for a block in no function) and remove_function_block_aux, the only "
+    "writers; a block split off inherits the function of its parent; a removed block is in no function by cache "
+    "and by table; a function that lost its last block and entry disappears from all three tables; are_joinable "
+    "never joins across functions nor into an entry block." + EMOD_TIE + " Partial: entry promotion on deletion and "
+    "the attribution of inserted code over whole insert/delete calls are decided by oracle and correspondence.",
+    technique=EMOD_TECH,
+    design="DESIGN.md#c06",
+)
 
 ALL = ["C%02d" % i for i in range(1, 21)]
 
@@ -177,7 +188,7 @@ def main():
         "engines": [
             {"name": "E-abi", "path": "lean/GtirbVerif/Model/Abi", "serves_properties": ["C16", "C17"], "kind_free_text": "abstract machine + Lean models of _allocate_patch_registers, the four prologue/epilogue generators and CallPatch; tables regenerated from abi._ABIS"},
             {"name": "E-adt", "path": "lean/GtirbVerif/Model/Adt", "serves_properties": ["C20", "C09"], "kind_free_text": "Lean models of ReferenceCache, ReturnEdgeCache, make_return_cache, BlockOrdering, OffsetMapping, IdentitySet with refinement proofs"},
-            {"name": "E-modify", "path": "lean/GtirbVerif/Model/IR", "serves_properties": ["C01", "C02", "C03", "C04"], "kind_free_text": "abstract GTIRB IR + Lean models of edit_byte_interval, split_block, are_joinable/join_blocks, remove_block, insert, delete, _cleanup_modified_blocks, the offset loop of _apply_modifications; listing specification (Spec/Listing*.lean)"},
+            {"name": "E-modify", "path": "lean/GtirbVerif/Model/IR", "serves_properties": ["C01", "C02", "C03", "C04", "C06"], "kind_free_text": "abstract GTIRB IR + Lean models of edit_byte_interval, split_block, are_joinable/join_blocks, remove_block, insert, delete, _cleanup_modified_blocks, the offset loop of _apply_modifications; listing specification (Spec/Listing*.lean)"},
             {"name": "E-dwarf", "path": "lean/GtirbVerif/Model/Dwarf", "serves_properties": ["C14", "C15"], "kind_free_text": "Lean model of dwarf/_encoders,_encodable,expr,cfi,cfi_eval + regenerated tables"},
         ],
         "checks": checks,
